@@ -540,15 +540,29 @@ def run_environment(case):
         cwd0 = os.getcwd()
         os.chdir(d)          # judge() looks at the -o file relative to the working directory of the tool
         try:
-            r = cli.run_subprocess(tool, args, stdin, cwd=d, extra_env=ENVS[case['env']])
-            what = "(process, environment {}) {} {}".format(ENVS[case['env']] or 'default', tool, ' '.join(args))
-            verdict = judge(tool, args, r, what, pre)
+            full = case.get('sink') == 'full' and os.path.exists('/dev/full')
+            r = cli.run_subprocess(tool, args, stdin, cwd=d, extra_env=ENVS[case['env']],
+                                   stdout_path='/dev/full' if full and '-o' not in args else None)
+            what = "(process, environment {}{}) {} {}".format(ENVS[case['env']] or 'default', ', output device full' if full else '', tool, ' '.join(args))
+            if full:
+                # every write fails (no space left on device): the formula cannot have been delivered, so exit status 0 is a lie
+                if r.code == 0:
+                    raise Violation("{}: exit status 0 although nothing could be written".format(what))
+                if TRACE.search(r.err):
+                    raise Violation("{}: a traceback is printed".format(what))
+                bad = [l for l in r.err.split('\n') if l.strip() and not l.startswith(('c', '*', '%'))]
+                if bad or not r.err.strip():
+                    raise Violation("{}: the failure is not reported in shielded lines: {!r}".format(what, (bad or [''])[0][:120]))
+                verdict = 'clean-error'
+            else:
+                verdict = judge(tool, args, r, what, pre)
         finally:
             os.chdir(cwd0)
     finally:
         shutil.rmtree(d, ignore_errors=True)
     nonascii = any(ord(ch) > 127 for a in args for ch in a) or bool(stdin and any(ord(ch) > 127 for ch in stdin))
-    return Outcome(labels=[tool, 'env:' + case['env'], verdict] + (['non-ascii-argument'] if nonascii else []), nontrivial=nonascii or case['env'] != 'default')
+    return Outcome(labels=[tool, 'env:' + case['env'], verdict] + (['non-ascii-argument'] if nonascii else []) + (['device-full'] if case.get('sink') == 'full' else []),
+                   nontrivial=nonascii or case['env'] != 'default' or case.get('sink') == 'full')
 
 
 def enum_environment(tier):
@@ -566,6 +580,14 @@ def enum_environment(tier):
         cmds.append(('cnfshuffle', ['--seed', '3'] + fl, 'c commento \u00e8 \u03b1\np cnf 3 2\n1 -3 0\n2 0\n', {}))
     cmds.append(('kthlist2pebbling', [], 'c grafo \u00fc\n' + kth, {}))
     cmds.append(('kthlist2pebbling', ['-i', 'grafo-\u00fc.kthlist'], None, {'grafo-\u00fc.kthlist': kth}))
+    kth2 = '3\n1 : 0\n2 : 0\n3 : 1 2 0\n'
+    if os.path.exists('/dev/full'):
+        # the output cannot be written: to the standard output, and to the file named by -o
+        for tool, args, stdin in (('cnfgen', ['php', '5', '4'], None), ('cnfgen', ['-of', 'latex', 'php', '3', '2'], None), ('cnfgen', ['-o', '/dev/full', 'php', '5', '4'], None),
+                                  ('cnfgen', ['-q', '-o', '/dev/full', 'op', '4'], None), ('pbgen', ['php', '5', '4'], None), ('pbgen', ['-o', '/dev/full', 'php', '5', '4'], None),
+                                  ('cnfshuffle', ['--seed', '3'], 'p cnf 3 2\n1 -3 0\n2 0\n'), ('cnfshuffle', ['--seed', '3', '-o', '/dev/full'], 'p cnf 3 2\n1 -3 0\n2 0\n'),
+                                  ('kthlist2pebbling', [], kth2), ('kthlist2pebbling', ['-o', '/dev/full'], kth2)):
+            yield {'tool': tool, 'args': args, 'stdin': stdin, 'files': {}, 'env': 'default', 'sink': 'full'}
     i = 0
     for env in ENVS:
         for tool, args, stdin, files in cmds:
@@ -585,6 +607,6 @@ SUBCHECKS = [
              rule="the same generator, each command line run as a real process (python -c 'from <tool module> import main; main()') and compared with the in-process verdict",
              required_labels=['subprocess']),
     SubCheck('environment', run_environment, enumerate_cases=enum_environment,
-             rule="real processes under five environments (default, stdout limited to ASCII, to latin-1, C locale without UTF-8 mode, UTF-8 mode) x command lines of the four tools that are legal but not ASCII (numbers typed with fullwidth digits, graph files and -o files with accented / Greek names, comments with accented letters on stdin), every output format, to stdout and to files (quick: a quarter, half under ASCII stdout); same oracle as 'hostile' on the process; non-trivial: a non-ASCII argument or a non-default environment",
-             required_labels=['env:stdout-ascii', 'env:C-locale', 'non-ascii-argument', 'success']),
+             rule="real processes under five environments (default, stdout limited to ASCII, to latin-1, C locale without UTF-8 mode, UTF-8 mode) x command lines of the four tools that are legal but not ASCII (numbers typed with fullwidth digits, graph files and -o files with accented / Greek names, comments with accented letters on stdin), every output format, to stdout and to files (quick: a quarter, half under ASCII stdout); plus every tool writing to a device on which every write fails (/dev/full, as standard output and as -o file): non-zero exit status and a shielded message, never exit 0; same oracle as 'hostile' on the process; non-trivial: a non-ASCII argument or a non-default environment",
+             required_labels=['env:stdout-ascii', 'env:C-locale', 'non-ascii-argument', 'success', 'device-full']),
 ]
